@@ -1,27 +1,14 @@
-// shared: position vocabulary.  R7 stand-ins for lsp_types::{Position, Range}; the text-walking functions of document.rs
-// (`char_indices` has no vstd specification) are abstract here and checked, bounded, by the Kani unit `positions`.
-#[derive(Clone, Copy)]
-pub struct Position { pub line: u32, pub character: u32 }
-pub struct PosRange { pub start: Position, pub end: Position }
-pub type TextRange = std::ops::Range<usize>;
-
-/// the LSP position of byte offset `index` in `text` (UTF-16 columns) — defined by the executable reference in kani/positions
-pub uninterp spec fn pos_of(index: usize, text: Seq<char>) -> Position;
-/// number of UTF-16 code units of text[a..b]
-pub uninterp spec fn utf16_units(a: usize, b: usize, text: Seq<char>) -> nat;
-pub open spec fn pos_le(a: Position, b: Position) -> bool { a.line < b.line || (a.line == b.line && a.character <= b.character) }
-/// monotonicity of the position function (Kani: as_position_inside_and_monotone, bounded) — used as a precondition
-pub open spec fn pos_monotone(text: Seq<char>) -> bool {
-    forall|a: usize, b: usize| a <= b ==> pos_le(#[trigger] pos_of(a, text), #[trigger] pos_of(b, text))
-}
-//~assume document.rs::as_position(i, text) == pos_of(i, text) and document.rs::utf16_len(range, text) == utf16_units(..): abstract in Verus (str::char_indices / encode_utf16 have no vstd spec); checked against the LSP reference by Kani unit `positions`, bounded by text length
-//~assume pos_of is monotone in the offset (Kani unit `positions`, harness as_position_inside_and_monotone, bounded; char-boundary offsets)
+// shared: position functions of document.rs as used by other units — contracts only (R10); the bodies are verified in unit `positions`
+//@include inc_posmodel.rs
+//~assume document.rs::{as_position, get_insertion_index} satisfy their contracts (proved, unbounded, in unit `positions`; used here by contract only)
 //@extract lsp4spl/src/document.rs :: fn as_position
 //@ ret p
 //@ sig
+    requires text_fits(text@),
     ensures p == pos_of(index, text@),
 //@ assume_body fn as_position
 //@end
+//~assume document.rs::utf16_len(range, text) is the number of UTF-16 code units of the characters in the range (str slicing / encode_utf16 have no specification; checked by Kani unit `positions`, bounded)
 //@extract lsp4spl/src/document.rs :: fn utf16_len
 //@ ret n
 //@ sig
@@ -32,21 +19,21 @@ pub open spec fn pos_monotone(text: Seq<char>) -> bool {
 //@extract lsp4spl/src/document.rs :: fn as_pos_range
 //@ ret r
 //@ sig
+    requires text_fits(text@),
     ensures
         r.start == pos_of(range.start, text@) && r.end == pos_of(range.end, text@), //# as_pos_range::componentwise
 //@end
-/// the byte offset LSP assigns to a position in `text` — defined by the executable reference in kani/positions
-pub uninterp spec fn idx_of(p: Position, text: Seq<char>) -> usize;
-//~assume document.rs::get_insertion_index(p, text) == idx_of(p, text): abstract in Verus; checked against the LSP reference by Kani unit `positions` (bounded)
 //@extract lsp4spl/src/document.rs :: fn get_insertion_index
 //@ ret i
 //@ sig
-    ensures i == idx_of(*position, text@),
+    requires text_fits(text@),
+    ensures i == idx_of(*position, text@), is_boundary(text@, i as int),
 //@ assume_body fn get_insertion_index
 //@end
 //@extract lsp4spl/src/document.rs :: fn as_index_range
 //@ ret r
 //@ sig
+    requires text_fits(text@),
     ensures
         r.start == idx_of(pos_range.start, text@) && r.end == idx_of(pos_range.end, text@), //# as_index_range::componentwise
 //@end
